@@ -21,7 +21,7 @@ from vf.tb import dut as dutm
 
 PROP = "C12"
 LEVEL = "exploration"
-KINDS = ["comb", "reg", "acc", "slice", "instctx"]
+KINDS = ["comb", "reg", "acc", "slice", "instctx", "inout"]
 
 HEAD = """from __future__ import annotations
 import cohdl
@@ -36,6 +36,15 @@ class Inc(cohdl.Entity):
         @std.concurrent
         def logic():
             self.y <<= self.x + 1
+
+class RdIo(cohdl.Entity):
+    io = Port.inout(Unsigned[4])
+    y = Port.output(Unsigned[4])
+
+    def architecture(self):
+        @std.concurrent
+        def logic():
+            self.y <<= self.io + 1
 
 def inc_inst(v):
     out = Signal[Unsigned[4]]()
@@ -142,6 +151,20 @@ def body(node, X, B, E, Y, YB, F, p, hier, classes, L, ind="        "):
         a(f"{ind}def {p}logic():")
         a(f"{ind}    {p}ly.next = ({B} @ {X}[1:0]).unsigned")
         a(f"{ind}    {p}lf.next = {'~' if kk & 1 else ''}{B}[1]")
+    elif k == "inout":
+        # a sub-entity that READS an inout port; the net is driven by this node only (the reader must see the net, not a copy of
+        # what it drives itself)
+        a(f"{ind}{p}li = Signal[Unsigned[4]](0)")
+        a(f"{ind}@std.concurrent")
+        a(f"{ind}def {p}logic():")
+        a(f"{ind}    {p}li.next = {X} + {kk}")
+        a(f"{ind}    {p}lf.next = {E}")
+        if hier:
+            a(f"{ind}RdIo(io={p}li, y={p}ly)")
+        else:
+            a(f"{ind}@std.concurrent")
+            a(f"{ind}def {p}logic2():")
+            a(f"{ind}    {p}ly.next = {p}li + 1")
     else:  # instctx: an entity instantiated by a helper that is called inside a concurrent context
         a(f"{ind}@std.concurrent")
         a(f"{ind}def {p}logic():")
